@@ -73,8 +73,12 @@ def make_flow(tables, ncp, cpdir, cnt, fail_at=None, src_fail=None, up_fail=None
     def source(i):
         def g():
             for n, row in enumerate(copy.deepcopy(tables[i])):
-                if src_fail is not None and src_fail == (i, n):
-                    raise IOError('source failed (connection reset)')
+                if src_fail is not None and src_fail[:2] == (i, n):
+                    if len(src_fail) == 3:
+                        # not the source, the WRITER fails: a cell the stream encoding refuses
+                        row = dict(row, t=b'\x00 raw bytes')
+                    else:
+                        raise IOError('source failed (connection reset)')
                 cnt['pulled'] += 1
                 yield row
         return g()
@@ -456,6 +460,16 @@ def run_case(case):
                 add('checkpoint_content', '%s: checkpoints %r are missing or incomplete after the run'
                     % (what, sorted(set(range(ncp)) - set(complete))), 'early_stop_checkpoint_incomplete')
             recover(cpdir, complete, what)
+            # ... and the run that RESUMES from them, with the same early-stopping step, returns what the saving run returned
+            code2, rep2 = crashlab.in_child(lambda: run_plain(cpdir, early_stop=es_), os.path.join(scratch, 'rep.json'))
+            counters['recoveries_compared'] += 1
+            cov['mode']['later_step_stops_early_during_resuming_run'] = 1
+            if not rep2 or not rep2.get('ok'):
+                add('recovery_failed', '%s, then the same flow again (resuming): the run failed: %s'
+                    % (what, (rep2 or {}).get('error', code2)), 'early_stop_resume_failed')
+            elif rep2['summary'] != rep['summary']:
+                add('recovery_differs', '%s, then the same flow again (resuming): it returns %r, the saving run returned %r'
+                    % (what, str(rep2['summary'])[:200], str(rep['summary'])[:200]), 'early_stop_resume_differs')
         shutil.rmtree(cpdir, ignore_errors=True)
     # a step in front of the checkpoints fails in its end-of-stream work (all rows have been written by then)
     for up in (('res_end', 'pkg_end') + tuple(('row_fn_stop_iteration', k_) for k_ in sorted({0, total // 2, max(total - 1, 0)}) if total)
@@ -477,13 +491,16 @@ def run_case(case):
         shutil.rmtree(cpdir, ignore_errors=True)
     # the SOURCE fails while the checkpoints are being written and a step after them swallows the error: whatever the
     # run returns, no checkpoint may be usable afterwards (none saw the complete stream)
-    for (j, r) in ([p_ for p_ in points if p_[1] != 'end'] if case['mode'] == 'swallowed' else []):
-        cpdir = 's_%d_%s' % (j, r)
+    for (j, r, wf) in ([p_ + (w_,) for p_ in points if p_[1] != 'end' for w_ in (False, True)] if case['mode'] == 'swallowed' else []):
+        cpdir = 's_%d_%s%s' % (j, r, '_w' if wf else '')
         prepare(cpdir)
-        code, rep = crashlab.in_child(lambda: run_plain(cpdir, src_fail=(j, r)), os.path.join(scratch, 'rep.json'))
-        what = 'source fails at resource %d row %s, a later step swallows the error' % (j, r)
+        sf_ = (j, r, 'unwritable_cell') if wf else (j, r)
+        code, rep = crashlab.in_child(lambda: run_plain(cpdir, src_fail=sf_), os.path.join(scratch, 'rep.json'))
+        what = ('the checkpoint writer fails at resource %d row %s (a cell its encoding refuses), a later step swallows the error' if wf else
+                'source fails at resource %d row %s, a later step swallows the error') % (j, r)
         counters['crash_points_executed'] += 1
-        cov['mode']['source_failure_swallowed_downstream'] = cov['mode'].get('source_failure_swallowed_downstream', 0) + 1
+        mk_ = 'writer_failure_swallowed_downstream' if wf else 'source_failure_swallowed_downstream'
+        cov['mode'][mk_] = cov['mode'].get(mk_, 0) + 1
         complete = post_crash(cpdir, what)
         if complete:
             add('checkpoint_committed_on_failure', '%s: checkpoints %r were committed' % (what, sorted(complete)),
